@@ -1136,7 +1136,7 @@ class RotationGate(Gate):
         Generate a tensor network representation of the gate.
         """
         # require a unique name for each rotation angle
-        return TensorNetwork.wrap(self.as_matrix(), f"Rn({self.ntheta})")
+        return TensorNetwork.wrap(self.as_matrix(), f"Rn({self.ntheta.tolist()})")
 
     def as_qasm(self):
         """
